@@ -28,11 +28,12 @@ Definition is_odf_encrypted (L : limits) (is_zip : bool) (o : zip_oracle) (enc :
   else SBool false.
 
 (* events of one is_odf_encrypted call on container c (same alphabet as ZipContext) *)
-Definition odf_probe_events (L : limits) (c : N) (is_zip : bool) (o : zip_oracle) : list event :=
+Definition odf_probe_events (L : limits) (c : N) (is_zip : bool) (o : zip_oracle) (has_manifest : bool) : list event :=
   if is_zip then
     if zo_opens o then
       match validate_zipfile L (zo_infos o) with
-      | Accept => [EvOpen c; EvValidate c true; EvRead c; EvClose c]
+      | Accept => if has_manifest then [EvOpen c; EvValidate c true; EvRead c; EvClose c]
+                  else [EvOpen c; EvValidate c true; EvClose c]
       | _ => [EvOpen c; EvValidate c false; EvClose c]
       end
     else []
